@@ -690,10 +690,17 @@ func (se *specEnv) evalCall(n *ast.CallExpr) Val {
 			return boolVal(fmt.Sprintf("(and (>= %s 0) (< %s alloc0))", v.term, v.term))
 		case "fresh": // pointer/slice base allocated during the call
 			v := arg(0)
+			loc := v.term
 			if _, ok := v.typ.Underlying().(*types.Slice); ok {
-				return boolVal(fmt.Sprintf("(> (s_base %s) alloc0)", v.term))
+				loc = fmt.Sprintf("(s_base %s)", v.term)
 			}
-			return boolVal(fmt.Sprintf("(> %s alloc0)", v.term))
+			if e.freshLo != "" {
+				// a callee's post-condition assumed at a call site: allocated during
+				// that call, i.e. after everything the caller allocated before it and
+				// before everything it allocates afterwards
+				return boolVal(fmt.Sprintf("(and (> %s %s) (< %s %s))", loc, e.freshLo, loc, e.freshHi))
+			}
+			return boolVal(fmt.Sprintf("(> %s alloc0)", loc))
 		case "base": // identity of a slice's backing array
 			v := arg(0)
 			return Val{term: fmt.Sprintf("(s_base %s)", v.term), typ: types.Typ[types.UnsafePointer]}
